@@ -45,28 +45,51 @@ theorem readonly_safe (fs : List Field) (sc : Stmt) (hd : ReadonlySafe fs sc = t
 /-! ## T11.2 — every extracted mutator is disciplined, or is one of the listed known findings
 
 Full statement wanted: `∀ m ∈ Gen.C11.scripts, Disciplined m.fields m.body`. It does NOT hold on the current tree:
-the mutators named in `knownUndisciplined` really leave a partial state behind (each replayed on the implementation,
-`known/C11.json`). `all_disciplined_partial` is the full statement minus exactly these names; it is re-decided against
-the scripts extracted from the current source on every run. -/
+see `exempt`. `all_disciplined_partial` is the full statement minus exactly these names; it is re-decided against
+the scripts extracted from the current source on every run (on the tree before the fixes listed in
+`known/C11.json` it failed for 17 mutators, each a genuine defect replayed on the implementation). -/
 
-/-- mutators with a known finding (ids in known/C11.json); a name stays here harmlessly after a fix -/
-def knownUndisciplined : List String := [
-  -- C11-import-fetch: a syntax error in the fetched sheet surfaces after the rule/href was committed
-  "CSSStyleSheet.insertRule", "CSSStyleSheet.add", "CSSImportRule.cssText", "CSSImportRule.href",
-  -- C11-rulelist-partial: insertRule(CSSRuleList) inserts one by one
-  "CSSMediaRule.insertRule", "CSSMediaRule.add", "CSSPageRule.insertRule", "CSSPageRule.add",
-  -- C11-nsrule-prefix
-  "CSSNamespaceRule.cssText",
-  -- C11-marginrule-emptied
-  "MarginRule.cssText",
-  -- C11-wellformed-flag
-  "Property.propertyValue", "Property.value", "PropertyValue.cssText", "ColorValue.cssText",
-  "DimensionValue.cssText", "MediaList.mediaText",
-  -- C11-encoding-override (internal helper used by the parser)
+/-- mutators exempted from `all_disciplined_partial`, with the reason (a name stays here harmlessly if the source
+changes so that its script becomes disciplined) -/
+def exempt : List String := [
+  -- the rejecting path undoes an in-place insertion by search-and-delete (cssstylesheet.py:815-826, fix 3ec898a for
+  -- finding C11-nsinsert-kept): no save/restore shape the discipline can validate. Covered by
+  -- `all_disciplined_guarded` (every other path), the oracle and the trace correspondence (that path).
+  "CSSStyleSheet.insertRule", "CSSStyleSheet.add",
+  -- parser-internal helper, not a public mutator: leaves `__encodingOverride`/`__newEncoding` set when `cssText`
+  -- raises and assigns `encoding` after `cssText` was committed (documented residual)
   "CSSStyleSheet._setCssTextWithEncodingOverride"]
 
+/-- **T11.2 (partial)** every extracted public mutator passes the discipline, except the names in `exempt` -/
 theorem all_disciplined_partial :
-    (Gen.C11.scripts.all fun m => Disciplined m.fields m.body || knownUndisciplined.contains m.name) = true := by
+    (Gen.C11.scripts.all fun m => Disciplined m.fields m.body || exempt.contains m.name) = true := by
+  decide +kernel
+
+/-- **T11.2 (guarded part)** the mutators with a guarded variant pass the discipline on every path on which the
+guarded statement (`self._cleanNamespaces()` inside `CSSStyleSheet.insertRule`) does not raise -/
+theorem all_disciplined_guarded :
+    (Gen.C11.scriptsGuarded.all fun m => Disciplined m.fields m.body) = true := by
+  decide +kernel
+
+/-- the guarded list is not empty and covers `insertRule` (non-vacuity) -/
+example : (Gen.C11.scriptsGuarded.map (·.name)).contains "CSSStyleSheet.insertRule" = true := by decide
+
+/-- mutators exempted from `all_readonly_safe`, with the reason -/
+def exemptReadonly : List String := [
+  -- classes without a read-only mode of their own (no `readonly` constructor parameter): they delegate to the
+  -- guards of the sheet / rule they operate on
+  "_Namespaces.__setitem__", "_Namespaces.__delitem__",
+  "Property.cssText", "Property.name", "Property.propertyValue", "Property.value", "Property.priority",
+  -- edits the style of an existing margin rule, which has its own read-only flag; a CSSPageRule *created*
+  -- read-only has no margin rules (its constructor takes none), so this branch is not reachable for such objects
+  "CSSPageRule.__setitem__",
+  -- parser-internal helper
+  "CSSStyleSheet._setCssTextWithEncodingOverride"]
+
+/-- **T11.3 (instances)** every extracted mutator, started on a read-only object, leaves every field unchanged
+however it ends (except `exemptReadonly`) -/
+theorem all_readonly_safe :
+    (Gen.C11.scripts.all fun m => ReadonlySafe m.fields m.body || exemptReadonly.contains m.name) = true := by
   decide +kernel
 
 /-- the translator extracted every mutator it was asked for -/
